@@ -1064,12 +1064,16 @@ def build_fn(ctx, unit, fs):
                 off = toks[it.body_open].end
             elif where == "body_end":
                 off = toks[it.body_close].start
-            elif where in ("loop_body_start", "loop_body_end"):
+            elif where in ("loop_body_start", "loop_body_end", "loop_after"):
                 ordn = int(arg)
                 if ordn > len(loops):
                     raise LostAnchor(f"{fs.path}: loop #{ordn} not found")
                 kw, ins_off, body_lo_off, body_hi_off, lkind = loops[ordn - 1]
                 off = body_lo_off if where == "loop_body_start" else body_hi_off
+                if where == "loop_after":
+                    if lkind == "for_each":
+                        raise UnitSyntaxError("loop_after on a for_each loop is not supported")
+                    off = body_hi_off + 1
             else:
                 raise UnitSyntaxError(f"unknown proof position {where}")
             raw = popts.get("raw")
